@@ -3,6 +3,7 @@ package sim
 import (
 	"fmt"
 	"sort"
+	"strconv"
 
 	"verif/gen"
 	"verif/rng"
@@ -617,6 +618,24 @@ func (b *builder) buildC06() {
 		mm := 5
 		b.big(&o, &mm)
 		b.msgStream(&c, 0, o, mm)
+		if c.Msgs != nil && b.r.Chance(1, 12) {
+			// a complete message of a dozen bytes (one-letter tokens, compact names): alone in the
+			// buffer, or with the next message right behind it
+			t := b.r.Pick([]string{"\r\n", "\n"})
+			tiny := gen.MsgSpec{FLine: b.r.Pick([]string{"A b c", "X y Z", "M u V", "AB c d"}), FTerm: t, Blank: t}
+			switch b.r.Intn(2) {
+			case 0:
+				body := b.g.Body(b.r.Intn(3))
+				tiny.Hdrs = []gen.HdrSpec{{Name: "l", Val: strconv.Itoa(len(body)), Term: t, Kind: "content-length"}}
+				tiny.Body = body
+			default: // (a message has at least one header line)
+				tiny.Hdrs = []gen.HdrSpec{{Name: b.r.Pick([]string{"x", "s", "k"}), Val: b.r.Pick([]string{"", "1", "y"}), Term: t}}
+			}
+			p := b.r.Intn(len(c.Msgs) + 1)
+			c.Msgs = append(c.Msgs, gen.MsgSpec{})
+			copy(c.Msgs[p+1:], c.Msgs[p:])
+			c.Msgs[p] = tiny
+		}
 		limitStream(&c)
 		s := c.Stream()
 		b.sc.Conns = append(b.sc.Conns, c)
